@@ -16,11 +16,17 @@ Theorem C17_fp_ops : forall x y : Z,
 Proof. exact fp_ops. Qed.
 Print Assumptions C17_fp_ops.
 
-(* the Impl values stay in [0,p] (p = the non-canonical zero of sm9_z256_modp_neg / _sub) *)
+(* the Impl values stay in [0,p]; canonical operands give canonical results (since c2dbe37 no
+   operation turns canonical input into the non-canonical zero p) *)
 Theorem C17_fp_range : forall x y : Z, 0 <= x <= p -> 0 <= y <= p ->
   0 <= fadd x y <= p /\ 0 <= fsub x y <= p /\ 0 <= fneg x <= p /\ 0 <= fhaf x <= p /\ 0 <= fmul x y < p.
 Proof. exact fp_range. Qed.
 Print Assumptions C17_fp_range.
+
+Theorem C17_fp_canonical : forall x y : Z, 0 <= x < p -> 0 <= y < p ->
+  0 <= fadd x y < p /\ 0 <= fsub x y < p /\ 0 <= fneg x < p /\ 0 <= fhaf x < p /\ 0 <= fmul x y < p.
+Proof. exact fp_canonical. Qed.
+Print Assumptions C17_fp_canonical.
 
 (* square-and-multiply (sm9_z256_modp_mont_pow) computes the power *)
 Theorem C17_fp_pow : forall x e : Z, 0 <= e -> fpow x e mod p = (x ^ e) mod p.
@@ -79,13 +85,28 @@ Theorem C17_fermat_little : forall q : Z, Znumtheory.prime q -> forall a : Z, a 
 Proof. exact Fermat.fermat_little. Qed.
 Print Assumptions C17_fermat_little.
 
-(* the bitwise zero test of fp12_inv misses the non-canonical zero produced by fp12_neg:
-   inv(-1) is computed as 0 *)
-Theorem C17_fp12_inv_noncanonical_zero_refuted :
-  canon12 (I12inv (I12neg I12one)) = canon12 I12zero /\
-  canon12 (I12mul (I12neg I12one) (I12inv (I12neg I12one))) <> canon12 I12one.
-Proof. exact I12inv_noncanonical_zero_refuted. Qed.
-Print Assumptions C17_fp12_inv_noncanonical_zero_refuted.
+(* inversion after negation, the case that returned 0 before c2dbe37: fp12_neg keeps a2 = 0
+   recognisable and the negated element is inverted correctly *)
+Theorem C17_fp12_inv_neg_partial : Znumtheory.prime p -> forall a : T12,
+  I4is_zero (c2 a) = true -> norm4 (D12 a) mod p <> 0 ->
+  I4is_zero (c2 (I12neg a)) = true /\
+  canon12 (I12mul (I12neg a) (I12inv (I12neg a))) = canon12 S12one.
+Proof. exact fp12_inv_neg. Qed.
+Print Assumptions C17_fp12_inv_neg_partial.
+
+Example C17_fp12_inv_neg_one :
+  I12neg I12one = (((p - 1, 0), (0, 0)), ((0, 0), (0, 0)), ((0, 0), (0, 0))) /\
+  canon12 (I12mul (I12neg I12one) (I12inv (I12neg I12one))) = canon12 I12one.
+Proof. exact I12inv_neg_one_now. Qed.
+Print Assumptions C17_fp12_inv_neg_one.
+
+(* history: the old negation p - a gave the non-canonical -1 below, on which fp12_inv (whose
+   bitwise branch test is unchanged) returns 0 *)
+Example C17_fp12_inv_old_neg_refuted :
+  fneg_old 0 = p /\ canon12 noncanonical_minus_one = canon12 (S12neg S12one) /\
+  canon12 (I12inv noncanonical_minus_one) = canon12 I12zero.
+Proof. exact I12inv_old_neg_refuted. Qed.
+Print Assumptions C17_fp12_inv_old_neg_refuted.
 
 (* the stored Frobenius constants are the powers of (-2)^((p-1)/12) *)
 Theorem C17_frobenius_constants :
@@ -105,17 +126,24 @@ Theorem C17_hash_quotient_bounds : forall z : Z, 0 <= z < 2 ^ 320 ->
 Proof. exact fh_quot_bounds. Qed.
 Print Assumptions C17_hash_quotient_bounds.
 
-Theorem C17_hash_to_range : forall z : Z, 0 <= z < 2 ^ 320 -> 2 ^ 192 + 2 ^ 64 <= z mod (Nord - 1) ->
-  from_hash_impl z = from_hash_spec z.
+(* sm9_z256_modn_from_hash (with the correction step of 3d68e44) is the standard's map
+   (Ha mod (N-1)) + 1 for EVERY 320-bit Ha, hence lands in [1, N-1] *)
+Theorem C17_hash_to_range : forall z : Z, 0 <= z < 2 ^ 320 -> from_hash_impl z = from_hash_spec z.
 Proof. exact from_hash_ok. Qed.
 Print Assumptions C17_hash_to_range.
 
-(* no correction step after the estimate: Ha = N-1 gives 0 (outside [1,N-1]); small residues are off by one *)
-Theorem C17_hash_to_range_refuted :
-  from_hash_impl (Nord - 1) = 0 /\ from_hash_spec (Nord - 1) = 1 /\
-  from_hash_impl (3 * (Nord - 1) + 5) = 5 /\ from_hash_spec (3 * (Nord - 1) + 5) = 6.
-Proof. exact from_hash_range_refuted. Qed.
-Print Assumptions C17_hash_to_range_refuted.
+Theorem C17_hash_impl_range : forall z : Z, 0 <= z < 2 ^ 320 -> 1 <= from_hash_impl z <= Nord - 1.
+Proof. exact from_hash_range. Qed.
+Print Assumptions C17_hash_impl_range.
+
+(* history: the function before 3d68e44 (no correction step) mapped Ha = N-1 to 0 and small
+   residues off by one; the repaired function is right on the same inputs *)
+Example C17_hash_to_range_old_refuted :
+  from_hash_impl_old (Nord - 1) = 0 /\ from_hash_spec (Nord - 1) = 1 /\
+  from_hash_impl_old (3 * (Nord - 1) + 5) = 5 /\ from_hash_spec (3 * (Nord - 1) + 5) = 6 /\
+  from_hash_impl (Nord - 1) = 1 /\ from_hash_impl (3 * (Nord - 1) + 5) = 6.
+Proof. exact from_hash_old_refuted. Qed.
+Print Assumptions C17_hash_to_range_old_refuted.
 
 (* sm9_z256_modn_add / _sub on reduced scalars *)
 Theorem C17_modn_add_sub : forall a b : Z, 0 <= a < Nord -> 0 <= b < Nord ->
